@@ -434,6 +434,9 @@ EDGE_R = (0.3, 0.6, 1.2, 2.0)
 EDGE_L = (0.0, 0.5, 0.9, 1.4, 3.0)
 EDGE_DIR = ((1.0, 0.0, 0.0), (0.0, 0.0, -1.0), (1 / math.sqrt(2), 1 / math.sqrt(2), 0.0), (0.36, 0.48, 0.8))
 EDGE_ORIGIN = (0.31, 0.17, -0.42)
+LINE_DIR = ((1.0, 0.0, 0.0), (0.0, 0.5, 0.5), (0.5, -0.5, 0.25))
+LINE_PERP = ((0.0, 1.0, 0.0), (1.0, 0.0, 0.0), (0.5, 0.5, 0.0))
+LINE_R = (0.3, 0.6, 1.1)
 
 
 def raster_geometry(case):
@@ -443,6 +446,21 @@ def raster_geometry(case):
         bk = compact_bank(int(case[2]))
         n = len(p)
         return p, [bk[i][0] for i in range(n)], [bk[i][1] for i in range(n)]
+    if case[0] == "line":
+        # nodes EXACTLY on one straight line (dyadic steps along a dyadic direction): chains and a chain with a side twig at a collinear
+        # point; radii in every pattern - equal runs followed by a change are where 'merge the straight run into one solid' goes wrong
+        _, shape, radii, steps, di = case[:5]
+        dv = LINE_DIR[int(di)]
+        pos, t_ = [], 0.0
+        for k_ in range(len(radii) if shape == "chain" else len(radii) - 1):
+            pos.append(tuple(build.f32(EDGE_ORIGIN[c] + t_ * dv[c]) for c in range(3)))
+            t_ += float(steps[k_]) if k_ < len(steps) else 0.0
+        p = [-1] + list(range(len(pos) - 1))
+        if shape == "twig":  # a side twig leaving the middle of the line at right angles
+            wv = LINE_PERP[int(di)]
+            pos.append(tuple(build.f32(pos[1][c] + 1.5 * wv[c]) for c in range(3)))
+            p.append(1)
+        return p, pos, [build.f32(v) for v in radii]
     _, ra, rb, L, di = case[:5]
     dv = EDGE_DIR[int(di)]
     a = tuple(build.f32(c) for c in EDGE_ORIGIN)
@@ -746,6 +764,18 @@ def raster_cases(st_hi, banks, with_edges, resolutions, lt_hi=4):
                     for ranged in (0, 1):
                         yield ("tree", list(p), b, res if not isinstance(res, tuple) else list(res), ranged)
     if with_edges:
+        import itertools as _it
+
+        for res in resolutions[:2]:
+            rr = res if not isinstance(res, tuple) else list(res)
+            for di in range(len(LINE_DIR)):
+                for radii in _it.product(LINE_R, repeat=3):
+                    for steps in ((2, 2), (2, 3)):
+                        yield ("line", "chain", list(radii), list(steps), di, rr, 0)
+                for radii in _it.product(LINE_R, repeat=4):
+                    if di == 0 or radii[0] == radii[1] or radii[1] == radii[2]:
+                        yield ("line", "chain", list(radii), [2, 2, 2], di, rr, 0)
+                    yield ("line", "twig", list(radii), [2, 2], di, rr, 0)
         for ra in EDGE_R:
             for rb in EDGE_R:
                 for L in EDGE_L:
@@ -831,7 +861,8 @@ def spaces(tier, seed):
                          "history": "every ordered sequence of distinct configurations, each in a new interpreter"}),
         Space.of("raster", lambda: raster_cases(st_hi, banks, True, RESOLUTIONS, lt_hi), check_raster,
                  bounds={"ST_max_nodes": st_hi, "LT_unsorted_max_nodes": lt_hi, "banks": list(banks), "edge_radii": list(EDGE_R), "edge_lengths": list(EDGE_L),
-                         "edge_directions": [list(v) for v in EDGE_DIR], "resolutions": [list(v) if isinstance(v, tuple) else v for v in RESOLUTIONS],
+                         "edge_directions": [list(v) for v in EDGE_DIR], "straight_lines": {"radii": list(LINE_R), "directions": [list(v) for v in LINE_DIR],
+                         "shapes": "3- and 4-node chains exactly on a line (every radius pattern), 3 on a line + a perpendicular twig at the middle node"}, "resolutions": [list(v) if isinstance(v, tuple) else v for v in RESOLUTIONS],
                          "ranges": ["bounding box", "explicit (box grown by 1 below, 2 above)"]}),
         Space.of("raster-history", lambda: raster_history_cases(hist_depth), check_raster_history,
                  bounds={"trees": len(HIST_TREES), "resolutions": [list(v) if isinstance(v, tuple) else v for v in HIST_RES],
